@@ -1,155 +1,178 @@
 # Table of claims; executed by mkmanifest.py. One entry per property of /verif/properties.jsonl.
-BASE = ("Trusted: govc (own VC generator: go/ssa -> SMT-LIB2, memory model, loop cutting), go/ssa + go/types of x/tools v0.50.0, the SMT solvers "
-        "(z3-new 5.1.0, cvc5 1.0, z3 4.8.12; 'unsat' from one suffices in the quick tier, thorough runs all and fails on disagreement). "
+BASE = ("Trusted: govc (own VC generator: go/ssa -> SMT-LIB2, memory model, loop cutting, finite-sum axioms), go/ssa + go/types of x/tools v0.50.0, the SMT solvers "
+        "(z3-new 5.1.0, cvc5 1.0, z3 4.8.12; 'unsat' from one racer suffices in the quick tier, thorough runs all three to completion, fails on disagreement and probes seed stability). "
         "Assumed everywhere: A-INT (Go integers are mathematical integers, no overflow), A-REAL (float64 is R; R + {+Inf,-Inf,NaN} in units marked ieee; no rounding), "
-        "logging/metrics calls are no-ops, append always reallocates, callee writes to objects it allocates itself are visible only through its ensures, "
-        "library functions per the models/assumed contracts listed in the evidence file, every contract marked trusted (listed in evidence with its note). ")
+        "logging/metrics calls are no-ops, append always reallocates, callee writes to objects it allocates itself are visible only through its ensures, closed world for interface dispatch and for "
+        "values of named func types (only what the loaded packages convert to the type), library functions per the models/assumed contracts listed in the evidence file, every contract marked trusted "
+        "and every `trust` clause (per-clause assumption) - each is listed in the evidence with its note. ")
 
 claim("C01",
       "Proof, for all inputs, of per-function contracts on the real code: the fit predicates (BaseResource/Resource/ResourceRequirements LessEqual == fitsBase/fitsRes/fitsReq; "
       "NodeInfo.IsTaskAllocatable [top]: result ==> best-effort or the request fits *Idle*, not Idle+Releasing; IsTaskAllocatableOnReleasingOrIdle; lessEqualTaskToNodeResources), "
       "the exact per-status effect of addTaskResources/removeTaskResources/AddTask/RemoveTask/UpdateTask on Idle/Used/Releasing (mirror images of each other), "
-      "checkMaxPodsWithGpuGroupReservation (exact), and the statement/commit pieces in framework. Right level: the property is an invariant preserved by each decision; "
-      "each link (check, charge, undo) is a universally quantified function contract. Session 3: the snapshot constructors (NewNodeInfo: Idle == Allocatable, nothing used; AddTasksToNode: exact per-status effect of one pod, only occupying pods recorded; getNodeToPodInfosMap), the max-pods predicate also under C01, the GPU folds GetDraGpusCount/GetGpusQuota/GetTotalGPURequest as verified finite sums, the Session dispatch wrappers (FittingNode: every registered predicate and capacity callback is consulted) verified instead of trusted.",
+      "checkMaxPodsWithGpuGroupReservation (exact), the statement/commit pieces in framework; the snapshot constructors (NewNodeInfo: Idle == Allocatable and nothing used; AddTasksToNode: only occupying pods are "
+      "recorded, exact effect of one pod; getNodeToPodInfosMap), the GPU folds GetDraGpusCount/GetGpusQuota/GetTotalGPURequest as verified finite sums, the Session dispatch wrappers (FittingNode: every registered "
+      "predicate and capacity callback is consulted) verified instead of trusted. Right level: the property is an invariant preserved by each decision; each link (check, charge, undo) is a universally quantified function contract.",
       BASE + "Not decided: that every path from an action to Cache.Bind goes through Statement (call-graph fact), storage capacity (isTaskStorageAllocatable trusted), "
-      "NodeInv as a sum over pods (no sum theory in the spec language: effects are proved per operation, the sum identity is the usual induction and is not mechanised), "
+      "NodeInv as a sum over pods (effects are proved per operation; the closed sum needs ownership/separation invariants over the pods' resource objects and is not mechanised), "
       "addTasksToNodes/Snapshot as a whole (AddTask's precondition vecWF - node vectors as long as the shared layout - is stronger than what the snapshot establishes; replayed, the code is fine), multi-cycle histories beyond the per-step contracts.",
       "DESIGN.md 2/C01")
 
 claim("C02",
       "Proof, for all inputs, of the shared-GPU functions: GetResourceGpuMemory, getGpuMemoryFractionalOnNode, EnoughIdleResourcesOnGpu ([top] result ==> allocated[g] + need <= GPU memory, plus the functional form), "
-      "enoughResourcesOnGpu, isAllGpuReleased, IsTaskFitOnGpuGroup, fractionTaskGpusAllocatableDeviceCount (bounds, zero/non-zero), and the exact effect of add/removeSharedTaskResourcesPerPodGroup "
-      "on the per-GPU memory maps, the releasing marker and Releasing.gpus (Idle.gpus changes by at most one and only when a group opens/closes).",
+      "enoughResourcesOnGpu, isAllGpuReleased, IsTaskFitOnGpuGroup, fractionTaskGpusAllocatableDeviceCount (bounds, zero/non-zero), the exact effect of add/removeSharedTaskResourcesPerPodGroup "
+      "on the per-GPU memory maps, the releasing marker and Releasing.gpus (removal is the MIRROR of addition for every status incl. nominated sharers: [mirrorOfNomination], proved on the fixed code), "
+      "gpu_sharing.GetNodePreferableGpuForSharing ([newGroupsPaidByIdleGpus]) and AllocateFractionalGPUTaskToNode; the what-if undo hands the node the RESTORED task (GPU groups first, then the node update).",
       BASE + "Preconditions exported to callers: nodeWF (MemoryOfEveryGpuOnNode > 0: see finding F1 in DESIGN.md - a node label nvidia.com/gpu.memory below 100 yields 0 and unlimited sharing). "
-      "Not decided: GetNodePreferableGpuForSharing/findGpuForSharingOnNode (N distinct devices for count > 1 only as 'some group fits'), GpuInv as a sum over sharers, physical GPU index identity (binder), uuid freshness.",
+      "Not decided: GpuInv as a sum over sharers, physical GPU index identity (binder), uuid freshness.",
       "DESIGN.md 2/C02")
 
 claim("C03",
       "Proof, for all inputs, of the counting functions that implement gang integrity: getNumTasksToAllocate (allocated < min ==> exactly min - allocated; else at most one), getNumAllocatableTasks, "
       "getMaxNumSubGroupsToAllocate, getTasksFromQueue (exact length), GetTasksToAllocate [elasticAtMostOne], getMaxTasksToEvict (exact; [keepsMin], [orAll]), getNumOfSubGroupsToEvict (exact), "
-      "GetTasksToEvict [shrinkAtMostOne][partialFlag], ShouldPipelineJob ([only][sure][never]), IsGangSatisfied/IsReadyForScheduling/IsElastic, PodSet counters, validVictimForMinAvailable, PodSetOrderFn. Session 3: PriorityQueue Push/Pop/Peek and JobsOrderByQueues PushJob/PopNextJob VERIFIED (were trusted) incl. ordering clauses; the four Execute loops and attempt* functions of allocate/reclaim/preempt/consolidation verified (two trust clauses each: [successIsCommittable], [outcomeRecorded]); allocateSubGroupSet/allocatePodSet hand SubsetNodesFn ALL pod sets of the sub-group set.",
-      BASE + "Assumed: container/heap library contracts (strict-weak-order comparator keeps the heap invariants), 7 trust clauses for the hereditary data invariant of the jobs-order node tree. Not decided: exact counts as cardinalities over maps (no count construct: counters are proved as per-step deltas), "
-      "which pod set is popped first when only some have surplus (depends on the heap order / subgrouporder configuration), the commit protocol of allocate/solvers (attemptToAllocateJob, JobSolver.Solve) beyond the Statement contracts.",
+      "GetTasksToEvict [shrinkAtMostOne][partialFlag], ShouldPipelineJob ([only][sure][never]), IsGangSatisfied/IsReadyForScheduling/IsElastic, PodSet counters (closed form: the gang counters EQUAL the recount over "
+      "the recorded statuses, [recount]), validVictimForMinAvailable, PodSetOrderFn; PriorityQueue Push/Pop/Peek and JobsOrderByQueues PushJob/PopNextJob VERIFIED (were trusted) incl. ordering clauses; "
+      "AllocateJob .. allocateTask (failed attempt is rolled back; capacity gate in every mode); the Execute loops and attempt* functions of allocate/reclaim/preempt/consolidation.",
+      BASE + "Assumed: container/heap library contracts (a strict-weak-order comparator keeps the heap invariants), 7 trust clauses for the hereditary data invariant of the jobs-order node tree, two trust clauses per attempt* function "
+      "([successIsCommittable]: the solver's statement satisfies Commit's preconditions; [outcomeRecorded]). Not decided: which pod set is popped first when only some have surplus (subgrouporder configuration), the commit protocol inside JobSolver.Solve beyond the Statement contracts.",
       "DESIGN.md 2/C03")
 
 claim("C04",
-      "Proof, for all inputs, of KAI's own placement-constraint logic: CheckNodeConditionPredicate (fit <==> schedulable and every node condition ok), checkMaxPodsWithGpuGroupReservation (exact), SkipPredicates.Add/ShouldSKip, "
-      "isNodePartOfTopology (exact), getJobTopology (unknown topology ==> not found), calcDomainId (safety + joined tuple), lowestCommonDomainID, and the topology node-set functions added after seeding (see DESIGN.md section 7).",
-      BASE + "Assumed (not verified): the upstream kube-scheduler filters (NodeAffinity, TaintToleration, InterPodAffinity, NodePorts ...) behind k8s_internal; the node-pool label selector of the listers. "
-      "Not decided: evaluateTaskOnPrePredicate/evaluateTaskOnPredicates as a whole (map with struct values, func-typed fields of k8s_internal, external Status methods), FittingNode -> allocate ordering, in-session pod-affinity state. "
-      "Known undecided candidates: calcDomainId is not injective for label values containing '.', lowestCommonDomainID absorbs empty label values.",
+      "Proof, for all inputs, of KAI's own placement-constraint logic: CheckNodeConditionPredicate (fit <==> schedulable and every node condition ok), checkMaxPodsWithGpuGroupReservation (exact), SkipPredicates, "
+      "the WIRING of the upstream filters (NewSessionPredicates: all eight table entries present, taints / node affinity / pod affinity / host ports / volume binding / DRA required for EVERY pod, each entry wired to its own plugin), "
+      "evaluateTaskOnPrePredicate (passes iff no required pre-filter fails) and evaluateTaskOnPredicates (every required filter passed, node ready and schedulable, max-pods and capacity gates), the ConfigMap and MaxNodePoolResources predicates, "
+      "isNodePartOfTopology (exact), getJobTopology, calcDomainId, lowestCommonDomainID, subSetNodesFn (child node sets within the parent's), GetAllPodSets (covers exactly the pod sets below a sub-group set) and the precondition of "
+      "Session.SubsetNodesFn that it is handed ALL pod sets of the sub-group it subsets for (so the domain pin of already active sibling pods is not lost).",
+      BASE + "Assumed (not verified): the upstream kube-scheduler filters themselves (NodeAffinity, TaintToleration, InterPodAffinity, NodePorts ...: named verdicts of type: contracts); the node-pool label selector of the listers; "
+      "`trust [subsetsOfParent]` on Session.SubsetNodesFn (the nested index invariant through the spread append was not robustly provable). "
+      "Not decided: evaluateTaskOnPredicates as an iff (PredicateByNodeResourcesType has no contract), in-session pod-affinity state beyond the podaffinity plugin's mirror. "
+      "Known undecided candidates: calcDomainId is not injective for label values containing '.', lowestCommonDomainID absorbs empty label values; evaluateTaskOnPrePredicate discards the allowed-node intersection of upstream PreFilters (only the Filter stage enforces it).",
       "DESIGN.md 2/C04")
 
 claim("C05",
       "Proof, for all inputs, that the listed gates do not reject the cases the property promises to serve (converse directions of the C01/C06/C07 contracts): IsTaskAllocatable(+OnReleasingOrIdle) completeness side, "
-      "common.FeasibleNodesForJob (a node with idle or releasing GPU capacity is kept), Reclaimable.CanReclaimResources (iff), FitsReclaimStrategy [starvedReclaimerServed], buildFilterFuncForPreempt$1 [eligibleAccepted]. Session 3: preempt/reclaim/consolidation/allocate Execute loops under contract: a job is skipped without an attempt only because a job OF ITS OWN QUEUE with a not-larger footprint failed before in this action ([perQueueScope], scopeOK preconditions of IsEasierToSchedule/UpdateRepresentative); every popped job is attempted or skipped for that reason ([orderDrained]); the seeded action-wide table is caught.",
-      BASE + "Explicitly NOT decided: that allocate/reclaim/preempt visit every job, node and victim set (whole-cycle progress of an action's Execute loop), IsEasierToSchedule/UpdateRepresentative (the scheduling-signature shortcut; "
-      "the seeded change of DESIGN.md section 7 for C05 lives there and is missed), idle_gpus accumulated filter. Candidate finding (not mechanised): jobEasierToScheduleComparison skips jobs whose request is incomparable to the recorded failure.",
+      "common.FeasibleNodesForJob (a node with idle or releasing GPU capacity is kept), Reclaimable.CanReclaimResources (iff), FitsReclaimStrategy [starvedReclaimerServed], buildFilterFuncForPreempt$1 [eligibleAccepted]; "
+      "the Execute loops of preempt/reclaim/consolidation/allocate: a popped job is skipped without an attempt only because a job OF ITS OWN QUEUE (cluster-wide only where the failure reason is queue-independent) with a not-larger footprint "
+      "failed before in this action ([perQueueScope], scopeOK preconditions of IsEasierToSchedule/UpdateRepresentative), and the order is drained ([orderDrained]).",
+      BASE + "Explicitly NOT decided: that the solver visits every node and victim set (progress inside JobSolver.Solve), the idle_gpus accumulated filter. Candidate finding (not mechanised): jobEasierToScheduleComparison skips jobs whose request is incomparable to the recorded failure.",
       "DESIGN.md 2/C05")
 
 claim("C06",
       "Proof, for all inputs, of the victim-eligibility functions: the preempt filter closure (result == preemptible && lower priority && same queue && other job && active allocated > 0 && PreemptVictimFilter), "
-      "the consolidation and reclaim filter closures, InitializeWithJobs/GetVictimsQueue filter flags, allPodsReallocated (<==> no victim task is Releasing), minruntime (validVictimForMinAvailable, resolvers, "
-      "is*MinRuntimeProtected == started && now < lastStart + resolved, preemptFilterFn/reclaimFilterFn), CalculatePreemptibility/IsPreemptibleJob, Session victim filters/validators (conjunction over the registered slice).",
+      "the consolidation and reclaim filter closures, InitializeWithJobs/GetVictimsQueue filter flags, allPodsReallocated (<==> no victim task is Releasing), minruntime (validVictimForMinAvailable, resolvers incl. their memo tables: "
+      "an answer is filed under the queue / the (reclaimer, victim) pair it was computed for and no other entry changes; is*MinRuntimeProtected == started && now < lastStart + resolved, preemptFilterFn/reclaimFilterFn), "
+      "CalculatePreemptibility/IsPreemptibleJob, Session victim filters/validators (conjunction over the registered slice), the action loops (on success exactly the solver's statement is committed, on failure nothing), setLastStartTimestamp.",
       BASE + "Assumed: plugin registration (the registered function values satisfy their type: contracts), time.Now as one constant per call, acyclic queue graph (ranking) for the resolver loops. "
-      "Not decided: the solver's search order, that evictions and the preemptor's pipeline share one Statement end to end (by_pod_solver), the min-runtime scenario validators, cache-hit paths of the resolver caches.",
+      "Not decided: the solver's search order, that evictions and the preemptor's pipeline share one Statement inside by_pod_solver, the min-runtime scenario validators.",
       "DESIGN.md 2/C06")
 
 claim("C07",
       "Proof, for all inputs, of the reclaim decision functions: compareQuantities with the -1 sentinel, ResourceQuantities ops, the share getters with cache coherence, both reclaim strategies and FitsReclaimStrategy "
       "(iff form + [withinQuotaIsSafe]: a queue within deserved quota and allocatable share is never reclaimed from), CanReclaimResources (iff: within fair share, non-preemptible within deserved), "
-      "fairShareSaturationRatio/isFairShareSaturationLowerPerResource (ieee), getHierarchyPath/getLeveledQueues (divergence level), subtractReclaimedResources, reclaimResourcesFromReclaimees, reclaimingQueuesRemainWithinBoundaries.",
-      BASE + "Assumed: (*Resource).GetTotalGPURequest (MIG share fold, trusted), acyclic queue graph as a ranking precondition (established by UpdateQueueHierarchy/ensures[rooted] in another ghost encoding: the link is not mechanised), "
-      "saturation predicate named by a definitional assume (listed). Not decided: that the validator runs on the finally committed victim set (C06 protocol).",
+      "fairShareSaturationRatio/isFairShareSaturationLowerPerResource (ieee), getHierarchyPath/getLeveledQueues (divergence level), subtractReclaimedResources, reclaimResourcesFromReclaimees, reclaimingQueuesRemainWithinBoundaries; "
+      "the queue usage establishment (only allocated statuses charge Allocated), GetTotalGPURequest as a verified finite sum, and reclaim's attempt: the validation snapshot is taken for EVERY reclaimer right before its solver run ([validationSnapshotFresh]).",
+      BASE + "Assumed: the regular-expression parser of MIG profile names (named verdict), acyclic queue graph as a ranking precondition (established by UpdateQueueHierarchy/ensures[rooted] in another ghost encoding: the link is not mechanised), "
+      "saturation predicate named by a definitional assume (listed). Not decided: that the validator runs on the finally committed victim set inside the solver.",
       "DESIGN.md 2/C07")
 
 claim("C08",
       "Proof, for all inputs, of the capacity policy: isOverLimit / isAllocatedNonPreemptibleOverQuota functional; resultsOverLimit / resultsWithNonPreemptibleOverQuota: IsSchedulable <==> at EVERY ancestor level allocated + requested <= limit "
-      "(resp. non-preemptible allocated + requested <= deserved), with termination; the three entry points; the allocate/deallocate handler closures: for every queue object, Allocated' = Allocated +/- r exactly on the parent chain of the job's queue and unchanged elsewhere, "
-      "AllocatedNotPreemptible iff non-preemptible; lemmas [limitInvariant][quotaInvariant] (check passed ==> still within the bound after the charge).",
-      BASE + "Assumed: GetGpusQuota (trusted fold), parent chain described by the ghost anc/depth/lvl under requires chainOK. Not decided: induction over the decisions of a cycle, GPU component of the job-level sum, "
+      "(resp. non-preemptible allocated + requested <= deserved), with termination; the three entry points; the Session wrappers (IsJobOverQueueCapacityFn ...: schedulable iff EVERY registered capacity function agrees; verified, were trusted); AllocateJob's capacity gate in every mode; "
+      "the allocate/deallocate handler closures: for every queue object, Allocated' = Allocated +/- r exactly on the parent chain of the job's queue and unchanged elsewhere, "
+      "AllocatedNotPreemptible iff non-preemptible; lemmas [limitInvariant][quotaInvariant]; createQueueResourceAttrs (each resource's quota/limit/weight from its own stanza); the what-if undo fires the plugin handlers AFTER the task is back on its node.",
+      BASE + "Assumed: parent chain described by the ghost anc/depth/lvl under requires chainOK. Not decided: induction over the decisions of a cycle, "
       "check == charge across setAcceptedResources for multi-device GPU-memory requests (known mismatch, DESIGN.md section 5), termination of the setFairShareForQueues recursion.",
       "DESIGN.md 2/C08")
 
 claim("C09",
-      "Proof, for all inputs (Real arithmetic), law by law: floor law end to end (SetResourcesShare: FairShare >= old + min(deserved', capped request) for CPU/Memory/GPU), the rounding cliffs of getResourceToGiveInCurrentRound, "
-      "the satisfied notion, the share-weight formula for all k-values and its monotonicity in over-quota weight, setDeservedResource exact and order-independent, shares never beyond the capped request in the weighted rounds, "
-      "priorities strictly descending, comparator is a strict total order, remaining <= total, loops of divideOverQuotaResource terminate; hierarchy recursion is panic-free with coherent caches.",
-      BASE + "Assumed: x/exp/maps.Keys and slices.SortFunc (trusted library contracts), PriorityQueue.Push/Pop. Not decided (no sum over key sets in the spec language): remaining >= 0 / conservation, "
-      "'surplus stays only if every positive-weight queue is satisfied', the priority law, order-independence and outer-loop termination of divideUpToFairShare, 'at most one unit per queue in the remainder phase' (so the < 1 rounding-unit clause end to end).",
+      "Proof, for all inputs (Real arithmetic), law by law: floor law end to end (SetResourcesShare), the rounding cliffs of getResourceToGiveInCurrentRound, the satisfied notion, the share-weight formula for all k-values and its monotonicity, "
+      "setDeservedResource exact and order-independent, priorities strictly descending, comparator is a strict total order, termination of divideOverQuotaResource; and, with finite sums (session 3): CONSERVATION "
+      "(sum of fair shares + remaining == old sum + total) in setDeservedResource and across every round of divideUpToFairShare for every iteration order, remaining >= 0, the PRIORITY LAW (a level leaves 0, or no claimant, or less than one unit per "
+      "still-unsatisfied non-zero-weight sibling), closed forms of getTotalWeightsForUnsatisfied / calcShareWeights, the exact remainder of divideRemainingResource, setResourceShare [surplusBounded] [nothingLeftWhenOverbooked].",
+      BASE + "Assumed: x/exp/maps.Keys and slices.SortFunc (trusted library contracts). Not decided: conservation over ALL priority levels together (sum over a partition of the key set), 'at most one unit per queue in the remainder phase', "
+      "order-independence of divideUpToFairShare as a functional postcondition. OUTSIDE A-REAL and observed on the real code: the fair shares depend on map iteration order for some sibling sets because the float64 summation order of the weights unties mathematically equal remainders (DESIGN.md section 5).",
       "DESIGN.md 2/C09")
 
 claim("C10",
       "Proof, for all inputs, of termination and panic-freedom of the listed consumers of API data: the queue graph (snapshotQueues, updateQueueChildren, cleanQueueOrphans, queueReachesRoot terminates on every map, cleanQueueCycles, "
-      "UpdateQueueHierarchy ensures [noSelfParent][noTwoCycle][rooted][parentsPresent]...), every parent-chain loop under contract with a decreases clause, sub-group factory total for ANY Spec.SubGroups (duplicates, cycles, empty names, MinMember <= 0), "
-      "pod annotation parsing (updatePodAdditionalFields, getPodResourceRequest, ieee for NaN/Inf), no-panic obligations of every unit tagged C10.",
-      BASE + "Not decided: termination of Execute as a whole, panics outside the functions under contract (evidence lists the units), the liveness clause ('untouched workloads are still scheduled'), "
-      "the link between UpdateQueueHierarchy/ensures[rooted] and the ranking preconditions of the consumers (two ghost encodings). Known undecided candidates: idle_gpus insert on an empty list, NewIdleGpusFilter(nil).",
+      "UpdateQueueHierarchy ensures [noSelfParent][noTwoCycle][rooted][parentsPresent]...), every parent-chain loop under contract with a decreases clause, sub-group factory total for ANY Spec.SubGroups, "
+      "pod annotation parsing (ieee for NaN/Inf), the snapshot functions of cluster_info (pods naming unknown nodes/queues/pod groups), InitializeWithJobs/PushJob (a job whose queue is missing is never pushed), the jobs-order and priority-queue code, "
+      "the action loops (nil job, nil statement), no-panic obligations of every unit tagged C10.",
+      BASE + "Not decided: termination of Execute as a whole, panics outside the functions under contract (evidence lists the units; `nopanic off` units are listed as assumptions), the liveness clause ('untouched workloads are still scheduled'), "
+      "the link between UpdateQueueHierarchy/ensures[rooted] and the ranking preconditions of the consumers (two ghost encodings). Known undecided candidates: idle_gpus insert on an empty list, NewIdleGpusFilter(nil), pod groups of the same name in two namespaces.",
       "DESIGN.md 2/C10")
 
 claim("C11",
-      "Proof, for all inputs and all outcomes of every client call (each call's error is a fresh symbolic value, so every subset of failing calls is covered), of the binder protocol functions: Reconcile (7 clauses: never bound twice, "
-      "no bind when Succeeded/deleted/already bound, bound to the selected node only, rollback only after bind, reported bind failure was rolled back, at most one status write), Binder.Bind (success ==> bound to the given node; failure ==> pod unbound: the binding create is the last call that can fail), "
-      "Binder.Rollback (every compensation step attempted), BinderPlugins.PreBind/PostBind/Rollback, reserveGPUs.",
-      BASE + "Assumed: controller-runtime client contracts over ghost state (gone, boundTo, statusWrites ...), Interface.*/Plugin.* interface contracts, DRA/volume-binding plugins. "
-      "Not decided: recoverable(S) at every crash point, the retry-from-intermediate-state lemma, content written by the gpusharing/DRA plugins, concurrency.",
+      "Proof, for all inputs and all outcomes of every client call (each call's error is a fresh symbolic value, so every subset of failing calls is covered), of the binder protocol functions: Reconcile (7 clauses), Binder.Bind, "
+      "Binder.Rollback, BinderPlugins.PreBind/PostBind/Rollback, reserveGPUs - and of the plugins that create the side objects, each proved against the Plugin.* interface contract assumed at the invoke sites: the DRA plugin (Bind returns nil only if EVERY claim "
+      "allocation of the request was stored), volume binding, the kube-plugin chain (first error stops; failure releases every reservation and leaves no state; Rollback releases every recorded reservation), gpusharing (config maps only for fractional requests, "
+      "portion and visible devices from the request, Rollback deletes exactly the two config maps PreBind can have created), the config-map upsert and naming.",
+      BASE + "Assumed: controller-runtime / client-go client contracts over ghost state, upstream kube-scheduler plugin contracts (VolumeBinding.*, K8sPlugin.*), three trust clauses in the DRA plugin (claim resolution is a function of pod and reference; the retried closure's per-run clauses carried through retry.RetryOnConflict). "
+      "Not decided: recoverable(S) at every crash point, the retry-from-intermediate-state lemma, concurrency. Observed (not claimed): a DRA partial failure (claim A stored, claim B fails) is undone only by a successful retry.",
       "DESIGN.md 2/C11")
 
 claim("C12",
       "Proof, for all inputs, of both sides of the hand-off: IsFailed (functional), GetBindRequestForPod (nil <==> absent or failed), getTaskStatus (pending + live bind request ==> Binding), snapshotBindRequests partition, "
-      "UpdateStatus (retry counter persisted on every failed attempt, phases persisted, attempts never decrease, terminal failure not retried, one write iff status changed; step lemmas limit-reached-is-failed(-in-store)).",
-      BASE + "Assumed: the status writer persists what it is handed unless it reports an error (persistence keyed on resourceVersion, fault oracle statusPatchFails). "
-      "Not decided: interleavings of scheduler cycles with binder reconciles as a history (the induction over reconciles is not mechanised), RequeueAfter = 2^attempts only as >= 1 s.",
+      "the snapshot side: getNodeToPodInfosMap (a listed task is Binding on SelectedNode with SelectedGPUGroups iff a live BindRequest exists, else Pending under no node), NewTaskInfoWithBindRequest, resourceClaimInfoFromPodClaims (the devices promised in the BindRequest are carried), "
+      "updatePodAdditionalFields (live BindRequest groups win), UpdateStatus (retry counter persisted on every failed attempt, phases persisted, attempts never decrease, terminal failure not retried, one write iff status changed).",
+      BASE + "Assumed: the status writer persists what it is handed unless it reports an error (persistence keyed on resourceVersion, fault oracle statusPatchFails), DataLister.List* read-only. "
+      "Not decided: interleavings of scheduler cycles with binder reconciles as a history (the induction over reconciles is not mechanised), RequeueAfter = 2^attempts only as >= 1 s, addTasksToNodes/Snapshot as a whole.",
       "DESIGN.md 2/C12")
 
 claim("C13",
-      "Proof, for all inputs, of the statement log protocol in framework: Operation Name/TaskInfo/Reverse for the four operation kinds, operationValid (parity of live undo entries, terminates), undoOperation, "
-      "Checkpoint/Rollback/Discard/clearOperations, Session victim filters and order functions, plus the exact mirror contracts of the node/job mutators they call (C14).",
+      "Proof, for all inputs, of the statement log protocol in framework: Operation Name/TaskInfo/Reverse for the four operation kinds, operationValid, undoOperation, undoEarliestValidOperation (undoes the EARLIEST operation that is still valid), "
+      "Checkpoint/Rollback/Discard/clearOperations, Evict/Pipeline/Allocate and their undo functions (captured previous state incl. a CLONE of the resource claim info; the undo restores the task first, then hands the node the restored task, then fires the handlers), "
+      "Commit (emits only for live entries, never reverses an operation whose bind succeeded), plus the exact mirror contracts of the node/job mutators they call (C14; incl. un-nominating a shared-GPU task, fixed) and of the scheduler DRA plugin's allocate/deallocate.",
       BASE + "Assumed: type:ReverseOperation (plugin handlers run node/job/plugin code: modifies *; logs only grow), Cache.Evict/TaskPipelined/Bind as ghost emission counters. "
-      "Not decided: whole-sequence restoration ('any sequence ... leaves the view exactly as it was') - it follows by induction from the inverse pairs, not mechanised; DRA claim handlers.",
+      "Not decided: whole-sequence restoration ('any sequence ... leaves the view exactly as it was') - it follows by induction from the inverse pairs, not mechanised.",
       "DESIGN.md 2/C13")
 
 claim("C14",
-      "Proof, for all inputs, of the accounting steps: Resource/ResourceRequirements arithmetic exact (Add/Sub/AddResourceRequirements/SubResourceRequirements, fits predicates), NodeInfo add/removeTaskResources and the AddTask family exact per status, "
-      "PodSet counters and PodGroupInfo index/counters as exact per-step deltas (AssignTask, AddTaskInfo, UpdateTaskStatus old -> new, failure leaves counts), queue usage establish/preserve (updateQueuesResourceUsage*, handlers), pod_status predicates == status sets.",
-      BASE + "Not decided: 'counter equals recount' as a closed statement (no sum/count theory: the proved per-step deltas are its inductive steps), vector vs structured agreement beyond length/frame "
-      "(finding F2 in DESIGN.md: a resource name ending in 'gpu' overwrites the GPU vector slot), NewNodeInfo / NewPodGroupInfoWithVectorMap / CloneWithTasks.",
+      "Proof, for all inputs, of the accounting steps: Resource/ResourceRequirements arithmetic exact, GPU folds as finite sums, NodeInfo add/removeTaskResources and the AddTask family exact per status, "
+      "PodSet counters as exact deltas AND in closed form (the three gang counters EQUAL the recount over the recorded statuses, preserved by AssignTask/clearOldStatus, established by NewPodSet), PodGroupInfo index/counters as per-step deltas, "
+      "queue usage establish/preserve, pod_status predicates == status sets, the snapshot constructors (NewNodeInfo, AddTasksToNode), Session.Evict/BindPod (job first, then node: the node records the pod under its NEW status).",
+      BASE + "Assumed: the DRA count map of a task's resource objects is not one of the node's per-GPU memory maps (draSeparate, listed). Not decided: job-level 'counter equals recount' (the all-pods map is a merge over pod sets), NodeInv as a closed sum, "
+      "vector vs structured agreement beyond length/frame (finding F2 in DESIGN.md: a resource name ending in 'gpu' overwrites the GPU vector slot), NewPodGroupInfoWithVectorMap / CloneWithTasks.",
       "DESIGN.md 2/C14")
 
 na("C15", "whole-history / liveness-style property (no eviction livelock over infinite closed-loop executions): no function contract within reach expresses a global ranking over cluster states; "
           "its local ingredients (strict saturation comparison, strictly lower priority, allPodsReallocated) are checked under C06/C07")
 
 claim("C16",
-      "Proof, for all inputs, of the comparators and fallbacks: priority.JobOrderFn (three-valued, higher priority first, antisymmetric), elastic.JobOrderFn/minAvailableState, subgrouporder.PodSetOrderFn (strict-weak-order lemmas), "
-      "queue_order prioritize* functions, Session.JobOrderFn/TaskOrderFn/QueueOrderFn fallbacks (creation time, then UID; irreflexive/asymmetric lemmas), PriorityQueue construction/Empty/Len.",
-      BASE + "Assumed: container/heap (Push/Pop trusted: membership only), plugin comparator registration. Not decided: PushJob/PopNextJob heap ordering and reorder logic (trusted), "
+      "Proof, for all inputs, of the comparators and fallbacks: priority.JobOrderFn (three-valued, higher priority first, antisymmetric), elastic.JobOrderFn/minAvailableState, subgrouporder.PodSetOrderFn, "
+      "queue_order prioritize* functions, Session.JobOrderFn/TaskOrderFn/QueueOrderFn fallbacks (creation time, then UID); and of the data structure that applies them: (*PriorityQueue).Pop [handsOutBest] (no element of the queue is handed out before the one returned), "
+      "Push keeps the order and, bounded, gives up only an element that would be handed out last ([keepsBestOld/New], lastToPopIndex [handedOutLast]); the leaf comparator of the jobs order IS Session.JobOrderFn; PopNextJob [bestOfLeaf], "
+      "InitializeWithJobs [allEligiblePushed] (every eligible job reaches the heap before the depth bound is applied), allocate.Execute attempts jobs in that order and drains it.",
+      BASE + "Assumed: container/heap library contracts for a strict-weak-order comparator (swo is only ever a hypothesis), trust clauses for the node-tree invariant of the jobs order. Not decided: ordering of the queue-NODE level (no ordering clause claimed), "
       "the whole-cycle monotonicity step (identical jobs: placeable later ==> placeable earlier).",
       "DESIGN.md 2/C16")
 
 claim("C17",
       "Proof, for all inputs and all outcomes of the client calls, of the sequential reservation logic: syncForPods ([only-justified-deletes][reservation-without-consumers-deleted]), deleteNonReservedPods, deleteReservationPod, "
-      "findGPUIndexByGroup, acquireGPUIndexByGroup [at-most-one-create], updatePodGPUGroup/ReserveGpuDevice (success ==> group label stored), lock released on every path, event handlers sync exactly the pod's groups, GetGpuGroups.",
-      BASE + "Not applicable within the family and not claimed: interleavings of concurrent reconciles and the correctness of GroupMutex (trusted sequential ghost 'held'). "
+      "findGPUIndexByGroup, acquireGPUIndexByGroup [at-most-one-create], updatePodGPUGroup/ReserveGpuDevice (success ==> group label stored), lock released on every path, event handlers (isCompletionEvent: every phase change to a terminal phase) sync exactly the pod's groups, GetGpuGroups.",
+      BASE + "Not applicable within the family and not claimed: interleavings of concurrent reconciles and the correctness of GroupMutex (trusted sequential ghost 'held'; a seeded off-by-one in its reference count needs three goroutines and is out of reach). "
       "Not decided: [running-consumers-without-reservation-deleted], at most one reservation pod per group beyond find-then-create under the lock, createGPUReservationPodAndGetIndex (channels: trusted).",
       "DESIGN.md 2/C17")
 
 claim("C18",
-      "Proof, for all inputs, of the naming/equality/merge functions of the pod-grouper: CalcPodGroupName (function of owner name and UID only), CalcPodGroupLabels/Queue, mapsEqualBySourceKeys, copyStringMap, updatePodGroup, "
-      "ignoreFields (mark-unschedulable, scheduling backoff, queue, node-pool and queue labels come from the stored object; inputs unmodified), podGroupsEqual (labels/annotations half).",
-      BASE + "Assumed: Unstructured.GetName/GetUID/GetLabels as declared functions of the owner, generated DeepCopy. Not decided: per-kind grouper plugins other than the default path, concurrent reconciles, "
+      "Proof, for all inputs, of the naming/equality/merge functions of the pod-grouper: CalcPodGroupName (function of owner name and UID only), CalcPodGroupLabels/Queue (owner label wins), mapsEqualBySourceKeys, copyStringMap, updatePodGroup, "
+      "ignoreFields (fields owned by other actors come from the stored object), podGroupsEqual, and of the per-kind grouper plugins (session 3; evidence lists the units): metadata is a function of the top owner and the documented template fields, "
+      "minimums >= 1, malformed owner objects give an error or the documented default - two genuine panics (PyTorch segment size 0 on a pod, LeaderWorkerSet worker index outside of the group) were found as undischarged no-panic obligations and fixed.",
+      BASE + "Assumed: unstructured accessors as declared deterministic functions of (object, path), generated DeepCopy. Not decided: concurrent reconciles, "
       "the write-free fixpoint of ApplyToCluster (goes through reflect.DeepEqual; two genuine write-on-every-reconcile defects were observed and replayed by hand, DESIGN.md section 5).",
       "DESIGN.md 2/C18")
 
 claim("C19",
       "Proof, for ALL annotation strings (strconv parsers are deterministic functions of the string shared by all three components; ieee floats so NaN/Inf are representable), that admission, scheduler and binder agree: "
-      "ValidateGpuRequests [exact] accepted iff no bad combination and every present value well-formed (fraction finite in (0,1), memory and count in [1, MaxInt64]); Validate (admission) [accepts-iff][sharing-disabled]; "
-      "updatePodAdditionalFields [agree-fraction][agree-memory][agree-count][agree-no-sharing]; GetGPUFraction/GetGPUMemory/GetNumGPUFractionDevices; GetFractionContainerRef.",
-      BASE + "Assumed: the strconv relations between ParseInt/ParseUint/ParseFloat listed in the evidence. Not decided: Mutate o Mutate = Mutate as a whole (random config-map suffix), NewTaskInfoWithBindRequest claim handling.",
+      "ValidateGpuRequests [exact]; Validate (admission) [accepts-iff][sharing-disabled]; updatePodAdditionalFields [agree-fraction][agree-memory][agree-count][agree-no-sharing]; GetGPUFraction/GetGPUMemory/GetNumGPUFractionDevices; GetFractionContainerRef; "
+      "the config-map names admission wires into the pod and the names the binder creates are ONE spec function of (prefix, container kind, index).",
+      BASE + "Assumed: the strconv relations between ParseInt/ParseUint/ParseFloat listed in the evidence. Not decided: Mutate o Mutate = Mutate as a whole (random config-map suffix).",
       "DESIGN.md 2/C19")
 
 claim("C20",
-      "Proof, for all inputs, of the aggregation steps: getStatusWithMetadata (Requested/Allocated from metadata, AllocatedNonPreemptible = Allocated for non-preemptible groups and empty for preemptible ones, other status kept, field-wise fixpoint), "
-      "isActivePod/isAllocatedPod/isPodScheduled, AddPodMetadata (pointwise sums), SumResources (result[k] == left[k] + right[k], fresh, operands unchanged).",
-      BASE + "Assumed: resource.Quantity as a Real value with trusted Add/DeepCopy models. Not decided: folds over lists (queue roll-up in resource_updater/childqueues_updater, calculatePodGroupMetadata: no fold in the spec language, "
-      "lists come from client.List), ShouldUpdatePodGroupStatus boolean (reflect.DeepEqual), the operator's Deploy fixpoint (reflection over arbitrary types): undecided and stated as such.",
+      "Proof, for all inputs, of the aggregation steps AND of the list folds as closed-form finite sums: getStatusWithMetadata, isActivePod/isAllocatedPod/isPodScheduled, AddPodMetadata, SumResources; calculatePodGroupMetadata "
+      "(Requested[r] / Allocated[r] == the sum over the listed pods of the per-pod amount under the phase guard, for every resource name; error ==> no metadata), queue controller sumChildQueueResources / sumPodGroupsResources / "
+      "ResourceUpdater.UpdateQueue (status == children sum + pod-group sum: the per-level equation of the hierarchy), ChildQueuesUpdater.UpdateQueue.",
+      BASE + "Assumed: resource.Quantity as a Real value, per-pod amounts named by trust clauses on GetPodMetadata (client reads: determinism assumed), client.List decodes into fresh memory. "
+      "Not decided: ShouldUpdatePodGroupStatus boolean (reflect.DeepEqual), the patch diff, key sets of the result maps, both Reconcile functions, the induction over hierarchy levels, the operator's Deploy fixpoint.",
       "DESIGN.md 2/C20")
